@@ -34,6 +34,9 @@ def parseOp : List String → Option Op
   | "st" :: "M1" :: ins => (parseInstr ins).map (.h (.st false))
   | "st" :: "M2" :: ins => (parseInstr ins).map (.h (.st true))
   | "if" :: "M" :: ins => (parseInstr ins).map (.h .im)
+  | "if" :: "M.a0" :: ins => (parseInstr ins).map (.h .im)      -- `.aN`: which function literal the probe hands to As();
+  | "if" :: "M.a1" :: ins => (parseInstr ins).map (.h .im)      --   As only stores it (iface.go:98), the model has nothing to record
+  | "if" :: "M.a2" :: ins => (parseInstr ins).map (.h .im)
   | "xf" :: "X" :: ins => (parseInstr ins).map (.h (.xf .x))
   | "xf" :: "Y" :: ins => (parseInstr ins).map (.h (.xf .y))
   | "xf" :: "nosuch" :: ins => (parseInstr ins).map (.h (.xf .z))
